@@ -65,6 +65,10 @@ PROPS["C09"] = {
          "race_anchors": ["pkg/secretstore/secret_store_messages.go", "pkg/secretstore/secret_store.go",
                           "pkg/secretstore/device_keystore_wrapper.go", "pkg/secretstore/chain_key.go"],
          "timeout": {"quick": 900, "thorough": 3000}},
+        {"name": "c09-first-use", "pkg": SECRETSTORE, "run": "TestVerifC09FirstUse", "race": True, "race_decides": True,
+         "race_anchors": ["pkg/secretstore/secret_store_messages.go", "pkg/secretstore/secret_store.go",
+                          "pkg/secretstore/device_keystore_wrapper.go", "pkg/secretstore/chain_key.go"],
+         "timeout": {"quick": 900, "thorough": 3000}},
         {"name": "c09-porcupine", "kind": "script",
          "cmd": ["python3", "lib/porcu.py", "C09", "c09-porcupine", "counter", "c09-history-"]},
     ],
